@@ -617,6 +617,10 @@ def check(ctx, rep):
 
     wap_prefix_boundary(ctx, rep, "R05f")
     request_target_evaluation(ctx, rep, "R05g")
+    rep.rule("R05o", "the protocols leave the file system to the handlers: no stat / exists / open and no file-system view of their own in "
+             "pygopherd/protocols (a selector re-spelt on the real file system's say-so breaks links into archives and mailboxes)", floor=1)
+    from ..effects import Effects as _Eff5
+    protocol_fs_obligations(ctx, rep, _Eff5(prog, ctx.resolver), "R05o")
     rep.rule("R05n", "= R08g: the selector a link-file block advertises is the path it names (`./name`, `~/name`, relative, absolute, URL:, names "
              "that start with dots): getLinkItem evaluated on scripted blocks", floor=5)
     from .c08 import linkfile_text_obligations
@@ -1159,6 +1163,37 @@ def wap_request_evaluation(ctx, rep, rule="R05m"):
     rep.add(rule, f"{P.name}: recognition, then handle(): the selector is the path below the prefix [{n} of {len(names)} targets]", not problems and n >= 3,
             ctx.where(can), "; ".join(problems[:2]) if problems else ("" if n >= 3 else "the walker could not follow the two steps"),
             key=f"{rule}|wap", nontrivial=n > 0)
+
+
+
+def protocol_fs_obligations(ctx, rep, eff, rule="R05o"):
+    """What a selector names is decided by the handlers (on their view of the file system: real, archive, mailbox ...).  A protocol
+    that looks at the real file system itself - to 'repair' or re-spell a selector before handler selection - decides on the wrong
+    view for everything that is not a plain path: archive members, mailbox messages, virtual selectors."""
+    prog = ctx.prog
+    n, found = 0, []
+    for f in prog.all_functions():
+        if not f.module.name.startswith("pygopherd.protocols") or ".tests" in f.module.name:
+            continue
+        n += 1
+        for s_ in eff.direct(f):
+            if s_.effect.startswith("FS_"):
+                found.append((f, s_))
+        for c in ast.walk(f.node):
+            if isinstance(c, ast.Call) and (dotted(c.func) or "").split(".")[-1] in ("VFS_Real",):
+                found.append((f, type("S", (), {"call": c, "effect": "a file-system view of its own"})()))
+    seen = set()
+    for f, s_ in found:
+        k = (f.qualname, norm(s_.call)[:50])
+        if k in seen:
+            continue
+        seen.add(k)
+        rep.add(rule, f"{f.qualname}: {norm(s_.call)[:60]}", False, ctx.where(f, s_.call),
+                f"a protocol looks at the file system itself ({s_.effect}): what it concludes about the selector holds for plain paths only - links into "
+                "archives, mailboxes and other virtual selectors that listings advertise are then judged (and rewritten, or refused) on the wrong view",
+                key=f"{rule}|{k[0]}|{k[1]}")
+    if not found:
+        rep.ok(rule, f"no protocol looks at the file system itself [{n} functions]", "pygopherd/protocols", "", key=f"{rule}|none")
 
 
 # ---------------------------------------------------------------------------------------------- R05j
